@@ -9,6 +9,7 @@ import (
 	"github.com/jsightapi/jsight-schema-core/notations/jschema"
 	"github.com/jsightapi/jsight-schema-core/notations/regex"
 
+	"github.com/jsightapi/jsight-api-core/catalog"
 	"github.com/jsightapi/jsight-api-core/directive"
 	"github.com/jsightapi/jsight-api-core/jerr"
 	"github.com/jsightapi/jsight-api-core/notation"
@@ -64,7 +65,11 @@ func (core *JApiCore) buildUserTypes() *jerr.JApiError {
 			if !d.BodyCoords.IsSet() {
 				return d.KeywordError(jerr.BodyIsEmpty)
 			}
-			core.userTypes.Set(k, regex.New(k, d.BodyCoords.Read()))
+			rs := regex.New(k, d.BodyCoords.Read())
+			if err := catalog.CheckRegexExamples(rs); err != nil {
+				return d.BodyError(err.Error())
+			}
+			core.userTypes.Set(k, rs)
 		default:
 			// nothing
 		}
